@@ -238,15 +238,30 @@ func solveOne(eng *Engine, fv *funcVC, k, id int, opt solveOpts) *Result {
 	start := time.Now()
 	if !opt.allAgree {
 		// stage 1: the fastest solver alone, briefly
-		short := 4 * time.Second
-		if opt.timeout < short {
-			short = opt.timeout
+		short := opt.timeout
+		type a1 struct{ s, st, out string }
+		c1 := make(chan a1, 2)
+		first := []string{opt.solvers[0]}
+		for _, s := range opt.solvers {
+			if s == "cvc5" && opt.solvers[0] != "cvc5" {
+				first = append(first, s)
+			}
 		}
-		st, out, _ := runSolver(opt.solvers[0], files[opt.solvers[0]], short)
-		if st == "unsat" {
-			return done("unsat", opt.solvers[0], time.Since(start).Milliseconds())
+		for _, s := range first {
+			go func(s string) {
+				st, out, _ := runSolver(s, files[s], short)
+				c1 <- a1{s, st, out}
+			}(s)
 		}
-		res.Status, res.Output, res.Query = st, out, files[opt.solvers[0]]
+		for range first {
+			a := <-c1
+			if a.st == "unsat" {
+				return done("unsat", a.s, time.Since(start).Milliseconds())
+			}
+			if res.Status == "" || a.st == "sat" {
+				res.Status, res.Output, res.Query = a.st, a.out, files[a.s]
+			}
+		}
 	}
 	// stage 2: all solvers in parallel
 	type ans struct {
